@@ -331,11 +331,39 @@ func (r *Run) panicSitesIn(f *ssa.Function, nilableParams map[*ssa.Parameter]boo
 		return nil, false
 	}
 	nonNilFact := func(at core.FactSet, v ssa.Value) (string, bool) {
-		ts := ff.TB.Of(v).String()
+		t := ff.TB.Of(v)
+		ts := t.String()
 		for _, fc := range at {
 			if fc.Kind == "cmp" && fc.Op == "!=" && fc.A.String() == ts && fc.B.Name == "nil" {
 				return fc.Key(), true
 			}
+		}
+		// caller precondition: the value is (a field of) a parameter and every static call site of this
+		// unexported function establishes it non-nil (the block was extracted from a caller that had the check)
+		if root := t.Root(); root != nil && root.Op == "param" && f.Object() != nil && !f.Object().Exported() {
+			callers := r.callersOf(f)
+			if len(callers) == 0 {
+				return "", false
+			}
+			for _, c := range callers {
+				g := c.Parent()
+				gf := r.E.Facts(g, core.Ctx{})
+				var actual []*core.Term
+				for _, a := range core.CallArgs(c.Common()) {
+					actual = append(actual, gf.TB.Of(a))
+				}
+				want := t.Subst(actual).String()
+				okSite := false
+				for _, fc := range gf.At(c) {
+					if fc.Kind == "cmp" && fc.Op == "!=" && fc.A.String() == want && fc.B.Name == "nil" {
+						okSite = true
+					}
+				}
+				if !okSite {
+					return "", false
+				}
+			}
+			return "caller precondition: every call site has " + ts + " != nil", true
 		}
 		return "", false
 	}
